@@ -190,14 +190,17 @@ def psfphot_pairs(seed):
             if res is None:
                 continue
             sig = {'obj': kind, 'order': list(order)}
+            # psf_shape: a small stamp, or one larger than the image along one / both axes (full-wing subtraction on a small frame)
+            ps = [(9, 9), (61, 57), (9, 53), (47, 9)][(seed + len(kind) + sum(order)) % 4]
+            sig['psf_shape'] = list(ps)
             for j, inc in enumerate(order):
-                mi = ph.make_model_image(shape, psf_shape=(9, 9), include_localbkg=inc)
-                ri = ph.make_residual_image(data, psf_shape=(9, 9), include_localbkg=inc)
+                mi = ph.make_model_image(shape, psf_shape=ps, include_localbkg=inc)
+                ri = ph.make_residual_image(data, psf_shape=ps, include_localbkg=inc)
                 t = Table()
                 t['x_0'] = res['x_fit']; t['y_0'] = res['y_fit']; t['flux'] = res['flux_fit']
                 if inc:
                     t['local_bkg'] = res['local_bkg']
-                ref = make_model_image(shape, CircularGaussianPRF(fwhm=3.2), t, model_shape=(9, 9))
+                ref = make_model_image(shape, CircularGaussianPRF(fwhm=3.2), t, model_shape=ps)
                 if not np.allclose(mi, ref, rtol=1e-9, atol=1e-9):
                     out.append(('psfphot_model_image_is_superposition_of_fit_results', dict(sig, call=j, include_localbkg=inc),
                                 {'max_abs_diff': float(np.max(np.abs(mi - ref)))}))
@@ -206,7 +209,7 @@ def psfphot_pairs(seed):
                 # the same residual whatever container the data arrive in
                 import astropy.units as u
                 from astropy.nddata import NDData
-                rn = ph.make_residual_image(NDData(data), psf_shape=(9, 9), include_localbkg=inc)
+                rn = ph.make_residual_image(NDData(data), psf_shape=ps, include_localbkg=inc)
                 if not np.array_equal(np.asarray(rn.data), data - mi):
                     out.append(('residual_is_data_minus_model', dict(sig, call=j, include_localbkg=inc, container='NDData'),
                                 {'max_abs_diff': float(np.max(np.abs(np.asarray(rn.data) - (data - mi))))}))
@@ -248,7 +251,7 @@ def run(ctx):
         for v in vs:
             ctx.violation(*v)
     ctx.evaluations += len(ccases); ctx.traces += len(ccases)
-    pr = core.pmap(psfphot_pairs, [ctx.seed * 7 + i for i in range(2 if q else 8)], procs=8, chunksize=1)
+    pr = core.pmap(psfphot_pairs, [ctx.seed * 7 + i for i in range(4 if q else 12)], procs=8, chunksize=1)
     for vs in pr:
         for v in vs:
             ctx.violation(*v)
